@@ -192,6 +192,43 @@ func runC06(c *Ctx) {
 		c.St.Eval("exh:"+seq, true)
 	}
 	c.St.Exhaustive = append(c.St.Exhaustive, fmt.Sprintf("exhaustive: all %d sequences of %d operations from a menu of %d over two objects sharing a list", total, k, len(menu)))
+	// structurally equal but distinct containers stored under keys, overwritten, merged, plucked
+	for i := 0; i < c.N(60, 600); i++ {
+		m.Case("twins")
+		t := r.Container(&TreeOpts{MaxDepth: 2, MaxWidth: 3}, "[{"[r.Intn(2)])
+		mk := func() string {
+			if t.K == '[' {
+				return m.NewListFrom(gvOfTree(t))
+			}
+			return m.NewObjectFrom(gvOfTree(t))
+		}
+		a, b := mk(), mk()
+		o := m.NewObject(gvStr("k"), m.RefGV(a), gvStr("n"), gvInt(1), gvStr("s"), gvStr("v"))
+		m.OSet(o, gvStr("k"), m.RefGV(b))
+		m.OGet(o, "k")
+		m.KeyOf(o, m.RefGV(b))
+		m.OContains(o, m.RefGV(a))
+		m.OSet(o, gvStr("n"), gvInt(1), gvStr("s"), gvStr("v")) // same scalars again
+		pl := m.Pluck(o, "k", "n", "s")
+		m.OSet(pl, gvStr("n"), gvInt(2), gvStr("s"), gvStr("w"))
+		m.OSet(o, gvStr("n"), gvInt(3))
+		m.OGet(pl, "k")
+		e := m.NewObject()
+		mg := m.Merge(e, o)
+		m.OGet(mg, "k")
+		m.KeyOf(mg, m.RefGV(b))
+		mg2 := m.Merge(o, e)
+		m.OGet(mg2, "k")
+		m.OClear(o)
+		mg3 := m.Merge(o, pl)
+		m.OGet(mg3, "k")
+		if t.K == '[' {
+			m.Add(b, gvInt(7))
+		} else {
+			m.OSet(b, gvStr("twin"), gvInt(7))
+		}
+		c.St.Eval("twins:"+t.Token(), true)
+	}
 	for i := 0; i < c.N(300, 4000); i++ {
 		m.Case("random")
 		p := &Prog{c: c}
@@ -230,6 +267,7 @@ func runC08(c *Ctx) {
 	m, r := c.M, c.R
 	c.St.Rule = "container trees cloned, then a random mutation program applied inside the clone or inside the original (top level and nested, methods and tree-form paths), every live container snapshotted after every step; non-trivial = the tree has a nested container; distinct by tree and program"
 	opts := &TreeOpts{MaxDepth: 4, MaxWidth: 4, Keys: r.SimpleKey}
+	c.deepChains()
 	for i := 0; i < c.N(400, 6000); i++ {
 		m.Case("clone-then-mutate")
 		t := r.Container(opts, "[{"[r.Intn(2)])
@@ -244,6 +282,17 @@ func runC08(c *Ctx) {
 			clone = m.OClone(orig)
 			m.OEquals(orig, clone)
 			m.OEquals(clone, orig)
+		}
+		if i%4 == 0 && t.K == '[' {
+			// a container that arrives through a particular history: inserted in the middle of a list of atoms
+			inner := m.NewList(gvInt(1), gvInt(2))
+			hist := m.NewList(gvInt(1), gvStr("a"), gvInt(3))
+			m.Insert(hist, 1, m.RefGV(inner))
+			m.Insert(hist, 0, m.RefGV(orig))
+			m.Replace(hist, 4, m.RefGV(m.NewObject(gvStr("q"), m.RefGV(inner))))
+			orig = hist
+			clone = m.Clone(orig)
+			m.Equals(orig, clone)
 		}
 		// every container of both sides is now registered (snapshots discovered them); mutate inside one side
 		side := clone
@@ -310,6 +359,32 @@ func runC08(c *Ctx) {
 		}
 		c.St.Eval(t.Token()+fmt.Sprint(steps, i), t.Depth() >= 2)
 		c.St.Count(fmt.Sprintf("tree_depth_%d", t.Depth()))
+	}
+}
+
+// deepChains: clone trees nested far deeper than any literal in the test suite and mutate the innermost container
+func (c *Ctx) deepChains() {
+	m := c.M
+	for _, depth := range []int{3, 33, 64, 65, 66, 100, c.N(130, 600)} {
+		m.Case("deep-chain")
+		innermost := m.NewList(gvInt(1))
+		cur := innermost
+		for d := 0; d < depth; d++ {
+			if d%2 == 0 {
+				cur = m.NewList(gvInt(d), m.RefGV(cur))
+			} else {
+				cur = m.NewObject(gvStr("d"), m.RefGV(cur))
+			}
+		}
+		var cl string
+		if cur[0] == 'L' {
+			cl = m.Clone(cur)
+		} else {
+			cl = m.OClone(cur)
+		}
+		_ = cl
+		m.Add(innermost, gvInt(99)) // the snapshots show whether the clone's innermost list followed
+		c.St.Eval(fmt.Sprint("deep:", depth), true)
 	}
 }
 
